@@ -111,10 +111,13 @@ def get_type_graph(t: type) -> graphlib.TopologicalSorter[TypeNode]:
     graph: graphlib.TopologicalSorter = graphlib.TopologicalSorter()
     u = inspection.unwrap(t)
     root = TypeNode(t, u)
-    stack = collections.deque([root])
+    # For subscripted generics we also track the types on the path from the root, so
+    #   we can tell a generic which contains itself (a cycle) from one that is merely
+    #   used in more than one place (which must keep its parameters).
+    stack = collections.deque([(root, frozenset((root.type,)))])
     visited = {root.type}
     while stack:
-        parent = stack.popleft()
+        parent, path = stack.popleft()
         parent_unwrapped = inspection.unwrap(parent.type)
         if inspection.isliteral(parent_unwrapped):
             graph.add(parent)
@@ -134,8 +137,9 @@ def get_type_graph(t: type) -> graphlib.TopologicalSorter[TypeNode]:
             # Only subscripted generics or non-stdlib types can be cyclic.
             #   i.e., we may get `str` or `datetime` any number of times,
             #   that's not cyclic, so we can just add it to the graph.
-            is_visited = child in visited or unwrapped in visited
             is_subscripted = inspection.issubscriptedgeneric(unwrapped)
+            seen = path if is_subscripted else visited
+            is_visited = child in seen or unwrapped in seen
             is_stdlib = inspection.isstdlibtype(unwrapped)
             can_be_cyclic = is_subscripted or is_stdlib is False
             # We detected a cyclic type,
@@ -160,7 +164,7 @@ def get_type_graph(t: type) -> graphlib.TopologicalSorter[TypeNode]:
             else:
                 node = TypeNode(type=child, unwrapped=unwrapped, var=var)
                 visited.add(node.type)
-                stack.append(node)
+                stack.append((node, path | {node.type}))
             # Flag the type as a "predecessor" of the parent type.
             #   This lets us resolve child types first when we iterate over the graph.
             predecessors.append(node)
